@@ -24,6 +24,14 @@ PROF = sched_gen.profile(
     op_weights=dict(sched=2, upd=0.5, unsched=0.4, clear=0.05, mute=0.3, unmute=0.3), p_quant=0.2, p_delay=0.2)
 
 
+# the same, with tracks that fail now and then on a tolerant timeline: a failing track is one more way for tracks to
+# interfere (C07.run_is_merge / fault_isolated_run cover it: the other tracks' contributions are unchanged)
+PROF_FAULTY = sched_gen.profile(
+    n_streams=(2, 6), p_chord=0.2, p_voice_chan=0.0, p_action=0.0, p_fault_item=0.05, p_bad_voice=0.05, p_offgrid=0.3,
+    tolerant=1.0, steps=(3, 9), tick_run=(5, 60), initial_sched=(2, 6), max_dur_ticks=4,
+    op_weights=dict(sched=2, upd=0.5, unsched=0.3, clear=0.0, mute=0.2, unmute=0.2), p_quant=0.2, p_delay=0.2)
+
+
 def coincide(lines, impl, feat):
     for tag, res, calls, ids in sched_gen.parse_out(impl):
         if isinstance(tag, int):
@@ -205,10 +213,20 @@ def static_cases(ctx):
         model = {}
         default = r.choice([None, None, -99, 0, False, "", 7])
         use_default_arg = default is not None or r.random() < 0.5
-        for _ in range(r.randint(1, 12)):
+        pats = {}          # a pattern stored in a global is advanced one step per read
+        for _ in range(r.randint(1, 14)):
             if r.random() < 0.45:
-                v = r.choice([r.randint(-5, 5), None, 0])
-                Globals.set("verif_" + name, v)
+                # values that compare equal but are not the same (1, 1.0, True; 0, False), patterns replacing scalars and
+                # scalars replacing patterns, the dict form of set()
+                v = r.choice([r.randint(-5, 5), None, 0, 1, 1.0, True, False, 0.0, "pattern", "pattern"])
+                if v == "pattern" and isinstance(v, str):
+                    vals_p = [r.randint(10, 99) for _ in range(r.randint(1, 3))]
+                    v = iso.PSequence(list(vals_p))
+                    pats[id(v)] = [vals_p, 0]
+                if r.random() < 0.3:
+                    Globals.set({"verif_" + name: v})
+                else:
+                    Globals.set("verif_" + name, v)
                 model[name] = v
             else:
                 pg = iso.PGlobals("verif_" + name, default) if use_default_arg else iso.PGlobals("verif_" + name)
@@ -217,9 +235,13 @@ def static_cases(ctx):
                 except Exception as e:
                     got = "raised " + type(e).__name__
                 exp = model.get(name, default)
+                if id(exp) in pats:
+                    st = pats[id(exp)]
+                    exp = st[0][st[1] % len(st[0])]
+                    st[1] += 1
                 if got != exp or type(got) != type(exp):
                     ctx.violation("C07:globals", "PGlobals(%r, default=%r) read %r, expected %r (set so far: %r)" % (name, default, got, exp, model),
-                                  {"suite": "globals", "name": name, "default": repr(default), "model": dict(model)})
+                                  {"suite": "globals", "name": name, "default": repr(default), "model": {k: repr(v) for k, v in model.items()}})
                     break
         ctx.case(("globals", i, name, repr(default), tuple(sorted((k, repr(v)) for k, v in model.items()))), nontrivial=True, validated=False)
         ctx.count("globals:default=%r" % (default,))
@@ -229,6 +251,9 @@ def static_cases(ctx):
 
 def run(ctx):
     sched_suite.run_suite(ctx, PROF, ctx.scale(1000, 80000), "c07", [order_oracle], coincide, signature_of)
+    # (no order oracle here: the notes of a failing track are released when it is removed, after its events of that tick;
+    #  the model has that release in the same place, `flushOf` in `phaseTracks`)
+    sched_suite.run_suite(ctx, PROF_FAULTY, ctx.scale(400, 30000), "c07f", [], coincide, signature_of)
     for i in range(ctx.scale(100, 4000)):
         merge_case(ctx, i)
     static_cases(ctx)
